@@ -1126,17 +1126,20 @@ def check(run):
     thorough = run.tier == 'thorough'
     common.prove(run, 'C10', ['model/C10Distribute.vo', 'model/C10Layout.vo', 'model/C10Grid.vo', 'model/C10Borders.vo',
                               'model/C10Preferred.vo', 'gen/GenTable.vo', 'proofs/C10_gen_env.vo',
-                              'proofs/C10_gen_fixed_model.vo', 'proofs/C10_gen_fixed_run.vo', 'proofs/C10_gen_fixed.vo'])
+                              'proofs/C10_gen_fixed_model.vo', 'proofs/C10_gen_fixed_run.vo', 'proofs/C10_gen_fixed.vo',
+                              'proofs/C10_gen_head.vo'])
     run.trusted += ['Coq 8.16.1 kernel (coqc); vm_compute for the cases.v evaluation',
                     'translator tools/py2coq.py + interpreter coq/base/Py.v for the regenerated statements of '
-                    'fixed_table_layout (gen/GenTable.v: from the choice of border_spacing_x to the end); the statements '
-                    'before that slice (wrapped table, <col> widths, num_columns, the fresh list column_widths) are '
+                    'fixed_table_layout (gen/GenTable.v: num_columns and the fresh list column_widths; from the choice of '
+                    'border_spacing_x to the end); the other statements before that slice (wrapped table, all_columns, '
+                    'first_row_cells, the <col> loop storing the <col> widths) are '
                     'covered by the hand model and the fixed-direct stream only',
                     'hand-written Gallina models of distribute_excess_width, fixed_table_layout, auto_table_layout, '
                     'column positions / cell extents and the border conflict fold: tied to /repo by the correspondence streams of every run',
                     'harness stubs (Fraction inputs), the render extraction code of impl_c10.py and the Python monitors']
     run.assumptions += ['C10_source_*: resolve_percentages(cell, table) is an oracle that answers the cell with its used '
-                        'width (auto or a number) and colspan; cell.border_width() is answered by ocall',
+                        'width (auto or a number) and colspan; cell.border_width() is answered by ocall; the colspan of a first-row '
+                        'cell is a natural number, the same before and after resolve_percentages',
                         'min/max-content widths, intrinsic percentages and constrainedness (preferred.py) are oracle inputs of the proved kernels; '
                         'theorems on auto layout assume 0 <= min <= max per column and table min >= spacing + sum of mins (measured on every render)',
                         'row heights / vertical placement and header/footer repetition are monitored, not proved']
